@@ -1,5 +1,4 @@
 SPECIFICATION Spec
 CONSTANT Tier = 0
 INVARIANT InvNoOp
-INVARIANT InvFaithful
 CHECK_DEADLOCK FALSE
